@@ -431,6 +431,33 @@ func RejNTTPoly(seed []byte) Poly {
 	return a
 }
 
+// RejNTTPolyBoundary is RejNTTPoly that also reports which rare candidates
+// occurred before the polynomial was complete: a 23-bit candidate equal to q
+// (the smallest rejected value), equal to q-1 (the largest accepted one), and
+// the number of rejected candidates.
+func RejNTTPolyBoundary(seed []byte) (a Poly, sawQ, sawQm1 bool, rejected int) {
+	g := sha3.NewShake128()
+	g.Write(seed)
+	var s [3]byte
+	for j := 0; j < N; {
+		g.Read(s[:])
+		z := int64(s[2]&127)<<16 | int64(s[1])<<8 | int64(s[0])
+		if z == Q {
+			sawQ = true
+		}
+		if z == Q-1 {
+			sawQm1 = true
+		}
+		if z < Q {
+			a[j] = z
+			j++
+		} else {
+			rejected++
+		}
+	}
+	return
+}
+
 func coeffFromHalfByte(eta int64, b int64) (int64, bool) {
 	if eta == 2 && b < 15 {
 		return 2 - b%5, true
